@@ -55,5 +55,9 @@ for prop in [f'C{i:02d}' for i in range(1, 19)]:
             'detected_by': DETECTED_ELSEWHERE.get(name) or {f'{prop} quick tier': 'VIOLATION (exit 1)'},
             'initially_missed_by_quick_tier': None if name in FIRST_PASS_UNKNOWN else name in FIRST_PASS_MISSED,
         }
+        if os.path.exists(f'{d}/meta.json'):
+            old = json.load(open(f'{d}/meta.json'))
+            if 'maintenance' in old:
+                meta['maintenance'] = old['maintenance']
         json.dump(meta, open(f'{d}/meta.json', 'w'), indent=1)
         print(name, '|', change[:70], '|', (needs or '-')[:60])
